@@ -56,19 +56,14 @@ func TestVerifMd(t *testing.T) {
 				want[i] = in[i]
 			}
 		}
-		got := append([]rune{}, in...)
-		loadMd(got)
+		// through the exported interface only (the helper behind it may be refactored freely)
 		n++
-		ok := string(got) == string(want) && len(got) == len(want)
-		if ok && n%50 == 0 {
-			// through the file interface as well
-			p := filepath.Join(dir, "x.md")
-			os.WriteFile(p, []byte(string(in)), 0o644)
-			s, err := GetSource(p)
-			files++
-			ok = err == nil && s == string(want)
-			got = []rune(s)
-		}
+		p := filepath.Join(dir, "x.md")
+		os.WriteFile(p, []byte(string(in)), 0o644)
+		s, err := GetSource(p)
+		files++
+		ok := err == nil && s == string(want)
+		got := []rune(s)
 		if !ok {
 			bad++
 			if bad <= 10 {
@@ -83,8 +78,11 @@ func TestVerifMd(t *testing.T) {
 func TestVerifMdOne(t *testing.T) {
 	in := os.Getenv("VERIF_MD_INPUT")
 	want := os.Getenv("VERIF_MD_WANT")
-	got := []rune(in)
-	loadMd(got)
+	dir := t.TempDir()
+	p := filepath.Join(dir, "x.md")
+	os.WriteFile(p, []byte(in), 0o644)
+	s, _ := GetSource(p)
+	got := []rune(s)
 	if string(got) != want {
 		b, _ := json.Marshal(map[string]interface{}{"in": in, "got": string(got), "want": want})
 		fmt.Printf("VERIF-MISMATCH %s\n", b)
